@@ -404,6 +404,28 @@ class Exec:
         st.env[node.name] = FuncV('closure', node, env=st.env, mi=self.mi)
         return [(st, 'next', None)]
 
+    def st_Delete(self, node, st):
+        """del d[key] on a dictionary with concrete keys (KeyError when absent); del name"""
+        for t in node.targets:
+            if isinstance(t, ast.Name):
+                st.env.pop(t.id, None)
+            elif isinstance(t, ast.Subscript):
+                base = self.eval(t.value, st)
+                cell = st.get(base) if isinstance(base, Ref) else None
+                if not isinstance(cell, PyDict):
+                    raise Unsupported('del on %r' % (base,))
+                k = self.eval(t.slice, st)
+                if is_sym(k):
+                    raise Unsupported('del with a symbolic key')
+                if k not in cell.items:
+                    raise _Raise(st, ExcV('KeyError', node.lineno))
+                items = dict(cell.items)
+                del items[k]
+                st.put(base, PyDict(items))
+            else:
+                raise Unsupported('del %s' % type(t).__name__)
+        return [(st, 'next', None)]
+
     def st_With(self, node, st):
         for it in node.items:
             txt = ast.unparse(it.context_expr)
